@@ -105,6 +105,8 @@ def sensitivity(ids) -> int:
                 cmd = [CHECK, pid, "--tier", "quick", "--no-evidence"]
                 if mut.get("runs"):
                     cmd += ["--runs", str(mut["runs"])]
+                if mut.get("only"):
+                    cmd += ["--only", mut["only"]]
                 p = subprocess.run(cmd, capture_output=True, text=True, env=env, timeout=3600)
                 caught = p.returncode == 1 and f"VIOLATION property={pid}" in p.stdout
                 viol = [ln for ln in p.stdout.splitlines() if ln.startswith("violation:")]
